@@ -675,8 +675,12 @@ def force_abandon_obs(prefix):
             for af, k in ((0b001, 0), (0b111, 1), (0b010, 1))]
 
 
+def heap_by_tag_ob(prefix):
+    return q_ob(prefix + ".heap_by_tag", "h_heap_by_tag", cost=5, funcs=["_mi_heap_by_tag"], bounds="3 heaps of a thread with symbolic tags / no_reclaim flags (backing heap last), any starting heap and tag")
+
+
 def c10():
-    return queue_obs("C10")
+    return queue_obs("C10") + [heap_by_tag_ob("C10")]
 
 
 PROPS["C10"] = dict(
@@ -767,6 +771,7 @@ def c09():
     obs += reclaim_obs("C09")
     obs.append(abandoned_visit_ob("C09"))
     obs += force_abandon_obs("C09")
+    obs.append(heap_by_tag_ob("C09"))
     return obs
 
 
